@@ -238,9 +238,8 @@ Definition kf_prop_len_overrun (v : N) (bs : list N) : bool := accepted_despite 
 Definition kf_retain_handling_3 (v : N) (bs : list N) : bool := accepted_despite SRetainHandling v bs.
 Definition kf_nolocal_shared (v : N) (bs : list N) : bool := accepted_despite SNoLocalShared v bs.
 Definition kf_pid_zero (v : N) (bs : list N) : bool := accepted_despite SPacketId v bs.
-(* empty topic name in a v3 PUBLISH, in a v5 PUBLISH without topic alias, or as response topic *)
-Definition kf_name_empty (v : N) (bs : list N) : bool :=
-  accepted_despite STopicName v bs || accepted_despite SEmptyTopicNoAlias v bs.
+(* an empty Response Topic property is accepted (ValidTopicName("") is true) *)
+Definition kf_name_empty (v : N) (bs : list N) : bool := accepted_despite STopicName v bs.
 (* CONNECT properties may carry PayloadFormat, MessageExpiry, ContentType, ResponseTopic,
    CorrelationData, WillDelayInterval, which belong to the will properties *)
 Definition kf_connect_props_will (v : N) (bs : list N) : bool :=
@@ -253,31 +252,6 @@ Definition kf_v3_password_without_username (v : N) (bs : list N) : bool :=
 (* v5 UNSUBSCRIBE checks its filters with ValidTopicFilter, not ValidV5Topic *)
 Definition kf_unsub_share_syntax (v : N) (bs : list N) : bool :=
   (ptype_of bs =? UNSUBSCRIBE) && (v =? 5) && accepted_despite STopicFilter v bs.
-
-(* spec-valid packets the decoder refuses *)
-Definition spec_body (v : N) (bs : list N) : option body :=
-  match spec_decode v bs with SOk (b, _) => Some b | SBad _ => None end.
-Definition refused_valid (v : N) (bs : list N) : option body :=
-  if model_accepts v bs then None else spec_body v bs.
-(* the strings checked by ValidTopicName / ValidTopicFilter / ValidV5Topic with mustUTF8 = true:
-   PUBLISH topic, Response Topic properties, SUBSCRIBE / UNSUBSCRIBE filters *)
-Definition resp_topics (p : option props) : list str :=
-  match p with
-  | Some p => match ps_get 8 (pr_single p) with Some (PVStr s) => [s] | _ => [] end
-  | None => []
-  end.
-Definition topic_strs (b : body) : list str :=
-  match b with
-  | BConnect c => resp_topics (c_props c) ++ resp_topics (c_wprops c)
-  | BPublish _ _ _ _ t _ _ p => t :: resp_topics p
-  | BSubscribe _ _ ts _ => map st_name ts
-  | BUnsubscribe _ _ ts _ => ts
-  | _ => []
-  end.
-(* U+FFFD in a topic name or filter: ValidUTF8 accepts it, the topic predicates still take
-   utf8.RuneError for an error *)
-Definition kf_topic_fffd (v : N) (bs : list N) : bool :=
-  match refused_valid v bs with Some b => existsb has_fffd (topic_strs b) | None => false end.
 
 (* ---------------------------------------------------------------- encode oracle (suite cenc) *)
 (* b: the packet value handed to Pack; r: what the implementation produced *)
@@ -292,8 +266,6 @@ Definition c06_encode_ok (v : N) (b : body) (r : reenc) : bool :=
       may_reject b && (tb =? len bs) && match spec_decode v bs with SOk (sb, []) => body_eqb sb b | _ => false end
   | _ => false
   end.
-Definition kf_enc_topic_fffd (b : body) : bool := existsb has_fffd (topic_strs b).
-
 (* ---------------------------------------------------------------- topic predicates (suite ctopic) *)
 Inductive tbool := TB (b : bool) | TBPanic.
 Definition tb_of (r : res bool) : tbool := match r with Ok b => TB b | _ => TBPanic end.
@@ -325,8 +297,6 @@ Definition c06_topic_ok (s : str) (o : topic_obs) : bool :=
 
 (* deviations, on the string *)
 Definition kf_t_name_empty (s : str) : bool := is_empty s.
-(* U+FFFD: refused by ValidTopicName / ValidTopicFilter / ValidV5Topic with mustUTF8 (not by ValidUTF8) *)
-Definition kf_t_fffd (s : str) : bool := has_fffd s.
 (* U+0000: accepted by the topic predicates when they are called directly *)
 Definition kf_t_nul (s : str) : bool := existsb (N.eqb 0) s.
 
